@@ -176,6 +176,10 @@ def work(sc):
         o, lists = SD.apply_op(dec, rec, ("remote", nd))
         ops[j].append(("remote", nd))
         outs[j] += o
+        if lists is None:
+            if fail is None:
+                fail = SD.remote_raise_failure(dec, len(ops[j]) - 1)
+            return
         for rid in all_ids():
             b, a, m = before.get(rid, (0, 0, 0)), status_of(dec, rid), msg_status((comp, halt, upd), rid)
             if a != max(b, m) and fail is None:
